@@ -26,4 +26,6 @@ INVARIANT HetBetAnswersOwn
 INVARIANT BetFixAnswers
 INVARIANT AsIsAlwaysFallsBack
 INVARIANT FixRemovesDeviation
+INVARIANT BetRoundTrip
+INVARIANT CrcSectorAccepted
 CHECK_DEADLOCK FALSE
